@@ -49,7 +49,8 @@ _NOINLINE_TRAITS = re.compile(
 _ERASE = re.compile(
     r"^(std|core)::(ops::Deref::deref|ops::DerefMut::deref_mut|convert::AsRef::as_ref|convert::AsMut::as_mut|"
     r"borrow::Borrow::borrow|borrow::BorrowMut::borrow_mut|clone::Clone::clone|convert::Into::into|convert::From::from|"
-    r"option::Option::<T>::(as_ref|as_mut|cloned|copied|unwrap|expect|as_deref)|"
+    r"option::Option::<T>::(as_ref|as_mut|cloned|copied|unwrap|expect|as_deref)|option::Option::<&T>::(cloned|copied)|"
+    r"option::Option::<&mut T>::(cloned|copied)|"
     r"result::Result::<T, E>::(unwrap|expect|as_ref|as_mut)|"
     r"sync::(RwLock|Mutex|poison::rwlock::RwLock|poison::mutex::Mutex)::<T>::(read|write|lock)|"
     r"sync::Arc::<T(, A)?>::(as_ref|clone)|slice::<impl \[T\]>::iter|"
